@@ -26,7 +26,7 @@ def main():
                 g()
             except Exception as e:
                 print("generator", g, "unavailable:", e)
-        targets += ["Ufw.Props." + p, m.DRIVER]
+        targets += ["Ufw.Props." + p, m.DRIVER] + list(getattr(m, "TIE", []))
     ok, out = vf.lake_build(sorted(set(targets)))
     print(out[-3000:] if not ok else "lake build ok (%d targets)" % len(set(targets)))
     for m in mods:
